@@ -45,6 +45,11 @@ def gen_mixed(rng):
     if not src_blocking and edges[0]["kind"] in ("cbelt", "slot"): edges[0] = dict(kind="buffer", cap=2, delay=0, mode="FIFO")
     return cfg
 
+def _statrepr(x):
+    if isinstance(x, dict): return "{" + ", ".join(f"{k!r}: {_statrepr(x[k])}" for k in sorted(x, key=repr)) + "}"
+    if isinstance(x, (list, tuple)): return "[" + ", ".join(_statrepr(y) for y in x) + "]"
+    return repr(x)
+
 def build_and_run(cfg):
     """returns dict(log=[...], stats={...}, error=None|str)"""
     quiet()
@@ -136,7 +141,11 @@ def build_and_run(cfg):
                  src_discarded=src.stats["num_item_discarded"] + (extra[0].stats["num_item_discarded"] if extra else 0),
                  processed=[m.stats["num_item_processed"] for m in ms], discarded=[m.stats["num_item_discarded"] for m in ms],
                  received=sink.stats["num_item_received"], occ=[occ(e) for e in edges] + ([occ(extra[1])] if extra else []),
-                 held=[len(getattr(m, "worker_thread_list", []) or []) for m in ms], steps=steps)
+                 held=[len(getattr(m, "worker_thread_list", []) or []) for m in ms], steps=steps,
+                 # every statistic every node and edge reports (time in states, occupancy histograms, averages …), as text:
+                 # reproducibility covers the statistics too
+                 node_stats={str(n.id): _statrepr(getattr(n, "stats", None)) for n in nodes},
+                 edge_stats={f"E{i}": _statrepr(getattr(e, "stats", None)) for i, e in enumerate(edges)})
     return dict(log=log, stats=stats, error=err)
 
 def _tf(x):
